@@ -33,7 +33,7 @@ from paramiko.common import four_byte
 from paramiko.message import Message
 from paramiko.pkey import PKey
 from paramiko.ssh_exception import SSHException
-from paramiko.util import deflate_long
+from paramiko.util import deflate_long, inflate_long
 
 
 class _ECDSACurve:
@@ -231,8 +231,13 @@ class ECDSAKey(PKey):
         sig_algorithm = self._get_sig_algorithm(msg)
         if sig_algorithm != self.ecdsa_curve.key_format_identifier:
             return False
-        sig = msg.get_binary()
-        sigR, sigS = self._sigdecode(sig)
+        sig = self._get_sig_blob(msg)
+        if sig is None:
+            return False
+        try:
+            sigR, sigS = self._sigdecode(sig)
+        except SSHException:
+            return False
         if sigR < 0 or sigS < 0:
             # Never valid, and encode_dss_signature() raises on them
             return False
@@ -337,7 +342,18 @@ class ECDSAKey(PKey):
         return msg.asbytes()
 
     def _sigdecode(self, sig):
+        # Exactly two mpints whose length prefixes account for every byte:
+        # Message would zero-pad (or cut short) a truncated one and ignore
+        # anything that follows them.
         msg = Message(sig)
-        r = msg.get_mpint()
-        s = msg.get_mpint()
-        return r, s
+        values = []
+        for _ in range(2):
+            if len(msg.get_remainder()) < 4:
+                raise SSHException("Invalid ECDSA signature encoding")
+            size = msg.get_int()
+            if size > len(msg.get_remainder()):
+                raise SSHException("Invalid ECDSA signature encoding")
+            values.append(inflate_long(msg.get_bytes(size)))
+        if msg.get_remainder():
+            raise SSHException("Invalid ECDSA signature encoding")
+        return tuple(values)
